@@ -402,13 +402,16 @@ func (x *Exec) applyContract(fr *Frame, st *State, cc *ssa.CallCommon, callee *s
 	case ctr.HasMod:
 		for _, m := range ctr.Modifies {
 			if m == "all" {
+				x.frameCall(st, key, "all")
 				x.havocHeap(st, "modifies all")
 				break
 			}
+			x.frameCall(st, key, m)
 			x.havocComponent(st, m)
 		}
 	default:
 		if !x.L.noHeapEffects(callee, 0) {
+			x.frameCall(st, key, "all")
 			x.havocHeap(st, "callee "+key)
 		}
 	}
@@ -451,25 +454,58 @@ func (x *Exec) applyContract(fr *Frame, st *State, cc *ssa.CallCommon, callee *s
 	k(st, resultVal(rs, sig))
 }
 
-func (x *Exec) havocComponent(st *State, m string) {
-	// m is "Type.field" (short) – match heap component keys by suffix
-	want := sanitize(strings.ReplaceAll(m, ".", "__"))
-	found := false
-	for k, t := range x.entryHeap {
-		if strings.HasSuffix(k, want) {
-			st.heap[k] = x.d.Fresh("hv_"+k, t.Sort)
-			found = true
+// modifiesMatch: does the modifies item m ("pkg.Type", "pkg.Type.field",
+// "Type.field") cover heap component key k ("F_S_pkg_Type__field")?
+func modifiesMatch(m, k string) bool {
+	parts := strings.Split(m, ".")
+	switch len(parts) {
+	case 3: // pkg.Type.field
+		return k == "F_S_"+sanitize(parts[0]+"_"+parts[1])+"__"+sanitize(parts[2])
+	case 2:
+		// pkg.Type (all fields) or Type.field
+		if strings.HasPrefix(k, "F_S_"+sanitize(parts[0]+"_"+parts[1])+"__") {
+			return true
 		}
+		return strings.HasPrefix(k, "F_S_") && strings.HasSuffix(k, "_"+sanitize(parts[0])+"__"+sanitize(parts[1]))
+	}
+	return false
+}
+
+func (x *Exec) havocComponent(st *State, m string) {
+	keys := map[string]string{}
+	for k, t := range x.entryHeap {
+		keys[k] = t.Sort
 	}
 	for k, t := range st.heap {
-		if strings.HasSuffix(k, want) {
-			st.heap[k] = x.d.Fresh("hv_"+k, t.Sort)
-			found = true
+		keys[k] = t.Sort
+	}
+	for k, sort := range keys {
+		if modifiesMatch(m, k) && !x.immutComp(k) {
+			st.heap[k] = x.d.Fresh("hv_"+k, sort)
 		}
 	}
-	if !found {
-		x.note("modifies %s: no such heap component touched on this path", m)
+	// components of the type not yet touched on this path: remember the
+	// item so that heapGet hands out a post-call symbol for them
+	st.modEpoch = append(st.modEpoch[:len(st.modEpoch):len(st.modEpoch)], modEpoch{m, fmt.Sprintf("m%d", x.nextEpoch())})
+}
+
+func (x *Exec) nextEpoch() int {
+	x.epochN++
+	return x.epochN
+}
+
+// frameAllows: may the function under verification (with a declared
+// modifies clause) write heap component k?
+func (x *Exec) frameAllows(k string) bool {
+	if x.ctr == nil || !x.ctr.HasMod {
+		return true
 	}
+	for _, m := range x.ctr.Modifies {
+		if m == "all" || modifiesMatch(m, k) {
+			return true
+		}
+	}
+	return false
 }
 
 // ---------------------------------------------------------------------------
@@ -944,6 +980,14 @@ func (x *Exec) libFacts(st *State, name string, args, rs []Val) {
 			st.assume(Implies(Eq(rs[1].T, NilIface), Eq(rs[0].T, args[0].T)))
 			x.funcsUsed["assume:go-digest: Parse(\"\") fails; Parse(s) returns Digest(s) on success"] = true
 		}
+	case "github.com/opencontainers/go-digest.FromBytes", "github.com/opencontainers/go-digest.FromString":
+		if len(rs) == 1 && rs[0].T.Sort == "String" {
+			// the canonical digest of some bytes is a valid, non-empty digest
+			st.assume(Not(Eq(rs[0].T, StrLit(""))))
+			perr := x.uninterp(st, "lf_github_com_opencontainers_go_digest_Parse_1", []Val{{T: rs[0].T, Typ: types.Typ[types.String]}}, types.Universe.Lookup("error").Type())
+			st.assume(Eq(perr.T, NilIface))
+			x.funcsUsed["assume:go-digest: FromBytes/FromString return a digest that Parse accepts"] = true
+		}
 	case "(github.com/opencontainers/go-digest.Digest).Validate":
 		if len(args) == 1 && len(rs) == 1 && args[0].T.Sort == "String" {
 			st.assume(Implies(Eq(args[0].T, StrLit("")), Not(Eq(rs[0].T, NilIface))))
@@ -1007,4 +1051,22 @@ func (L *Loaded) noHeapEffects(f *ssa.Function, depth int) bool {
 	}
 	L.pureMemo[f] = ok
 	return ok
+}
+
+// frameCall: O-FRAME at a call — the callee's declared effects must be
+// covered by the caller's own modifies clause (when it has one).
+func (x *Exec) frameCall(st *State, callee, item string) {
+	if x.ctr == nil || !x.ctr.HasMod {
+		return
+	}
+	for _, m := range x.ctr.Modifies {
+		if m == "all" || m == item {
+			return
+		}
+		// pkg.Type covers pkg.Type.field
+		if strings.HasPrefix(item, m+".") {
+			return
+		}
+	}
+	x.oblige(st, "FRAME", fmt.Sprintf("frame(call of %s modifies %s)", callee, item), False, "callee may modify memory outside this function's modifies clause")
 }
